@@ -302,15 +302,41 @@ def err_obs(e: BaseException):
     return {"error": ERR_ENUM.get(type(e).__name__, "other:" + type(e).__name__)}
 
 
+class CaseTimeout(BaseException):
+    pass
+
+
+CASE_TIMEOUT = float(os.environ.get("VERIF_CASE_TIMEOUT", "20"))
+_timeouts = [0]
+
+
 def guarded(fn, *a, **kw):
+    """run one implementation/model case: exceptions are mapped to the error enum; a case that does not finish
+    within CASE_TIMEOUT seconds (a hang of the real code is an observation, not an infrastructure problem)
+    is reported as {"error": "timeout"}"""
+    import signal
+
+    def _raise(*_):
+        raise CaseTimeout()
+
+    old = signal.signal(signal.SIGALRM, _raise)
+    # after five hangs the remaining cases get a short leash so that a hanging implementation cannot turn the
+    # whole check into an infrastructure time-out
+    signal.setitimer(signal.ITIMER_REAL, CASE_TIMEOUT if _timeouts[0] < 5 else min(CASE_TIMEOUT, 2.0))
     try:
         return fn(*a, **kw)
     except (KeyboardInterrupt, Infra):
         raise
+    except CaseTimeout:
+        _timeouts[0] += 1
+        return {"error": "timeout", "msg": f"did not finish within {CASE_TIMEOUT}s"}
     except BaseException as e:  # noqa
         o = err_obs(e)
         o["msg"] = (str(e) or "")[:200]
         return o
+    finally:
+        signal.setitimer(signal.ITIMER_REAL, 0)
+        signal.signal(signal.SIGALRM, old)
 
 
 def strip_msg(o):
